@@ -356,12 +356,13 @@ class ModelsWorld(World):
                 if rng.random() < (0.3 if nv > 1 else 0.12) and TEMPLATES[r.tname]["shocks"]:
                     # assigning a level to a shock is legal; the assignment rules reset it to zero in every variant
                     m["values"][rng.choice(TEMPLATES[r.tname]["shocks"])] = [1.0] * nv if nv > 1 and rng.random() < 0.5 else 1.0
-                if nv > 1 and TEMPLATES[r.tname].get("growth") and rng.random() < 0.3:
+                if nv > 1 and TEMPLATES[r.tname].get("growth") and rng.random() < 0.5:
                     # growth scenarios: the variants share level and parameters and differ in the steady change only
                     tv = [q.human for q in r.real.quantities if "TRANSITION_VARIABLE" in str(q.kind)]
                     lvl = round(val.uniform(0.5, 2.0), 3)
                     m["values"] = {rng.choice(tv): [{"t": [lvl, round(1.0 + 0.02 * (j + 1), 3)]} for j in range(nv)]}
                     self._pending = [{"op": "mutate", "args": {"h": h, "m": {"k": "solve"}}}]
+                    self._growth_just_assigned = True
                     self.probes["growth_scenarios_assigned"] += 1
                 elif rng.random() < 0.15:
                     # (level, change) pair for a variable
@@ -422,7 +423,9 @@ class ModelsWorld(World):
             else:
                 m = {"k": "describe", "s": rng.choice(["", "var A", "renamed"])}
         step = {"op": "mutate", "args": {"h": h, "m": m}}
-        if cls == "sim" and nv > 1 and m["k"] == "assign" and any(isinstance(v, list) for v in m["values"].values()) and rng.random() < 0.4:
+        growth = getattr(self, "_growth_just_assigned", False)
+        self._growth_just_assigned = False
+        if not growth and cls == "sim" and nv > 1 and m["k"] == "assign" and any(isinstance(v, list) for v in m["values"].values()) and rng.random() < 0.4:
             # the variants have just been given different values: the operations that work variant by variant come next
             # (the split check after each of them compares every variant with a single-variant model of its own)
             self._pending = [{"op": "mutate", "args": {"h": h, "m": {"k": "steady"}}}, {"op": "mutate", "args": {"h": h, "m": {"k": "solve"}}}]
